@@ -36,6 +36,9 @@ func opMarshal(c Obj) J {
 		}
 		return j
 	}
+	if why := noTextForm(c["policy"]); why != "" {
+		return Obj{"skip": "no text form: " + why}
+	}
 	subject := cedar.NewPolicyFromAST((*pubast.Policy)(must(cwf.JToPolicy(c["policy"]))))
 	out := Obj{}
 	via, _ := c["via"].(string)
@@ -223,4 +226,60 @@ func opMarshalSet(c Obj) J {
 func init() {
 	register("marshal", opMarshal, func(c Obj, obs, exp J) []int { return nil })
 	register("marshalset", opMarshalSet, func(c Obj, obs, exp J) []int { return nil })
+}
+
+// driver "marshal": random policies (conditions of every kind, scopes, annotations with
+// arbitrary strings), three random environments each for comparing the meaning
+func driveMarshal(seed int64, n int, params map[string]string) []Obj {
+	g := newGen(seed, 4)
+	vias := []string{"ast", "json", "text"}
+	out := make([]Obj, 0, n)
+	for i := 0; i < n; i++ {
+		p := g.policy(4)
+		if len(p.Conditions) == 0 || g.r.Intn(3) == 0 {
+			p.Conditions = append(p.Conditions, ast.ConditionType{Condition: ast.ConditionWhen, Body: g.expr(kBool, 1+g.r.Intn(4))})
+		}
+		envs := []any{cwf.EnvToJ(g.env()), cwf.EnvToJ(g.env()), cwf.EnvToJ(g.env())}
+		out = append(out, Obj{"op": "marshal", "policy": cwf.PolicyToJ(p), "via": vias[i%3], "parts": false, "envs": envs})
+	}
+	return out
+}
+
+func init() { drivers["marshal"] = driveMarshal }
+
+var extMethods = map[string]bool{"lessThan": true, "lessThanOrEqual": true, "greaterThan": true, "greaterThanOrEqual": true,
+	"isInRange": true, "offset": true, "durationSince": true, "isIpv4": true, "isIpv6": true, "isLoopback": true,
+	"isMulticast": true, "toDate": true, "toTime": true, "toDays": true, "toHours": true, "toMinutes": true,
+	"toSeconds": true, "toMilliseconds": true}
+var extFunctions = map[string]bool{"ip": true, "decimal": true, "datetime": true, "duration": true}
+
+// ASTs that a program can build but the Cedar syntax cannot express (outside C08's quantifier):
+// calls of functions the language does not have, method calls without a receiver.
+func noTextForm(j J) string {
+	why := ""
+	var walk func(j J)
+	walk = func(j J) {
+		switch t := j.(type) {
+		case Obj:
+			if t["op"] == "ext" {
+				fn, _ := t["fn"].(string)
+				args, _ := t["args"].([]any)
+				switch {
+				case !extMethods[fn] && !extFunctions[fn]:
+					why = "unknown function " + ascii(fn)
+				case extMethods[fn] && len(args) == 0:
+					why = "method call without receiver"
+				}
+			}
+			for _, v := range t {
+				walk(v)
+			}
+		case []any:
+			for _, v := range t {
+				walk(v)
+			}
+		}
+	}
+	walk(j)
+	return why
 }
